@@ -50,13 +50,19 @@ def classify(arg):
     return ("other", arg[:80])
 
 
-def check_body(eng, obl, out, kind, nv=1, nf=1, keep=None):
-    """every existing, non-ignored field of every variant gets exactly the documented assertion"""
-    ex = eng.executor(opaque_local=c05.OPAQUE, trace={"build_eq_checker", "VariantEntry::make_pat_with_self_path"} | set(streams.FLOW_CALLS), slice_bound=max(nv, nf))
+WCB_OPAQUE = {"WhereClauseBuilder::push_bounds", "WhereClauseBuilder::push_bounds_for_field", "GenericParamSet::contains_in_type", "ItemSource::generics", "ItemSource::ident"}
+
+
+def check_body(eng, obl, out, kind, nv=1, nf=1, keep=None, auto_bounds=False):
+    """every existing, non-ignored field of every variant gets exactly the documented assertion.
+    auto_bounds: the run in which the automatic field bounds are in effect (use_bounds = true on entry): the assertion is owed all the same"""
+    ex = eng.executor(opaque_local=c05.OPAQUE | (WCB_OPAQUE if auto_bounds else set()), trace={"build_eq_checker", "VariantEntry::make_pat_with_self_path"} | set(streams.FLOW_CALLS), slice_bound=max(nv, nf))
     ex.unique_streams = True
     ex.trace_returns = {"build_eq_checker"}
+    ex.approx_opaque_iters = auto_bounds  # yes/no questions over syn's own iterators (pure look-ups) are explored both ways
     fn = eng.find("build_eq_body")
-    pre = [z3.Not(ex.bvar("use_bounds")), ex.ivar("disc(source)", 0, 1) == (0 if kind == "struct" else 1)]
+    ub = ex.bvar("use_bounds")
+    pre = [ub if auto_bounds else z3.Not(ub), ex.ivar("disc(source)", 0, 1) == (0 if kind == "struct" else 1)]
     fields = []  # (base, exists)
     if kind == "struct":
         lf = ex.ivar("len(source.<Struct>.1)", 0, ex.slice_bound)
@@ -73,7 +79,7 @@ def check_body(eng, obl, out, kind, nv=1, nf=1, keep=None):
         for base, _ in fields:
             pre += c05.restrict(FieldAtoms(ex, base), keep)
     res = ex.run(fn, eng.args_for(fn), pre=pre)
-    tag = "build_eq_body[%s %dx%d%s]" % (kind, nv, nf, "" if keep is None else " free=" + "+".join(sorted(keep)))
+    tag = "build_eq_body[%s %dx%d%s%s]" % (kind, nv, nf, "" if keep is None else " free=" + "+".join(sorted(keep)), " auto-bounds" if auto_bounds else "")
     stuck = obl.note_paths(tag, res, ex)
     for r in stuck[:2]:
         out.inconclusive.append("fn=%s reason=%s" % (tag, r.value))
@@ -361,6 +367,9 @@ def run(tier):
         # several fields / variants: every one of them gets its assertion (free atoms restricted to eq + ord to stay small)
         sp(check_body, "struct", 1, 2, keep={"eq", "ord"})
         sp(check_body, "enum", 2, 1, keep={"eq", "ord"})
+        # with the automatic field bounds in effect (the where-clause bound does not replace the assertion: it says nothing about concrete field types)
+        sp(check_body, "struct", 1, 1, auto_bounds=True)
+        sp(check_body, "enum", 1, 1, keep={"eq", "ord"}, auto_bounds=True)
         if tier == "thorough":
             sp(check_body, "enum", 2, 2, keep={"eq"})
             sp(check_body, "struct", 1, 3, keep={"ord"})
@@ -375,5 +384,5 @@ def run(tier):
         PID, tier, t0, eng, obl, out,
         rule="every feasible MIR path of build_eq_body (struct field / enum-variant field, all 20 attribute atoms free) is one case: the component passed to the Eq-bounded "
              "helper must be the one the documentation prescribes under the path condition; plus structural obligations on build_eq_checker / Template::build_eq_checker / build_compare_op",
-        bounds="one field, one variant; use_bounds=false; token-level obligations look at the identifier / punctuation sequence pushed by quote!",
+        bounds="one field, one variant; use_bounds=false, plus one run each for struct / enum with use_bounds=true (WhereClauseBuilder calls opaque); token-level obligations look at the identifier / punctuation sequence pushed by quote!",
         outside="that rustc rejects a non-Eq argument of the helper (language guarantee); several fields (the field loop is the one C05 executes with two fields)")
